@@ -150,7 +150,34 @@ def pq_sweep(tier, seed=0):
                 break
         if len(fails) >= 5:
             break
+    # weighted summaries as percentiles_summary / merge_and_compress_summaries produce them: many values, float
+    # (non-dyadic) weights, more values than partitions (the over-sampled branch, where rounding of the weight sums matters)
+    import random as _random
+
+    rnd = _random.Random(seed)
+    nrand = 3000 if tier == "quick" else 40000
+    for _ in range(nrand):
+        if len(fails) >= 5:
+            break
+        n = rnd.randrange(4, 45)
+        vals = sorted(rnd.sample(range(1000), n))
+        weights = [rnd.choice([rnd.random() * 10 + 0.01, rnd.randrange(1, 9) / 7.0, rnd.randrange(1, 30) * 0.1]) for _ in range(n)]
+        npart = rnd.randrange(1, max(2, n - 1))
+        cases += 1
+        try:
+            rv = np.asarray(fn((np.array(vals, dtype="float64"), np.array(weights)), npart, (np.dtype("float64"), None)))
+            msg = None
+            if (rv[1:] < rv[:-1]).any():
+                msg = f"divisions decrease: {rv.tolist()}"
+            elif rv[0] != vals[0] or rv[-1] != vals[-1]:
+                msg = f"divisions {rv.tolist()[:3]}..{rv.tolist()[-3:]} do not span the data's min {vals[0]} and max {vals[-1]}"
+            elif len(rv) > npart + 1:
+                msg = f"{len(rv)} divisions for npartitions={npart}"
+        except Exception as e:  # noqa
+            msg = f"{type(e).__name__}: {e}"
+        if msg:
+            fails.append(rtc.Failure("process_val_weights", {"vals": list(vals), "weights": list(weights), "npartitions": npart}, "ensures", "C45-quantile-divisions-span-min-max", msg))
     return {"function": "dask/dataframe/partitionquantiles.py:process_val_weights (extracted source, NumPy; bounded only)", "bounded": True,
-            "bound": {"vals": "strictly increasing ints from range(6)", "max_len": maxlen, "weights": list(wts), "npartitions": "1..5"},
+            "bound": {"vals": "strictly increasing ints from range(6)", "max_len": maxlen, "weights": list(wts), "npartitions": "1..5", "random float-weighted summaries": nrand},
             "cases": cases, "distinct_nontrivial": cases, "failures_found": len(fails), "wall_s": round(time.time() - t0, 2),
             "samples": [{"native_case": {"vals": [1, 2, 3], "weights": [4, 1, 1], "npartitions": 2}}], "failures": fails}
